@@ -29,7 +29,7 @@ def runs_for(pid, tier, seed):
     if pid == 'C01':
         some = none + [(fm.C('maxsize'),), (fm.C('gen'),), (fm.C('mincost', 1, 1),), (fm.C('maxsize'), fm.C('lsb'))]
         runs = [
-            R('s2core/IP', fm.s2core(CritLists=none, CheckIP=True, ReportCap=64, Stabs={False} if q else {False, True})),
+            R('s2core/IP', fm.s2core(CritLists=none, CheckIP=True, ReportCap=64, Stabs={False} if q else {False, True}), simulate=12000 if q else None),
             R('zerocap', fm.zerocap(CritLists=none, ReportCap=64, Stabs={False} if q else {False, True})),
             R('hr2', fm.hr2(CritLists=none, ReportCap=64, CheckIP=True, Stabs={False} if q else {False, True})),
             R('wide3x3x2', fm.wide(ReportCap=4, **fm.build(0, 4)), simulate=3000 if q else 40000),
@@ -146,4 +146,10 @@ NONTRIVIAL = {
 
 
 def main(pid, tier, seed):
-    return lpcheck.run_lp_check(pid, tier, seed, runs_for(pid, tier, seed), rule=RULES[pid], nontrivial=NONTRIVIAL.get(pid))
+    post = None
+    if pid in ('C01', 'C02', 'C03', 'C04', 'C05'):
+        from . import m3real
+
+        def post(rep, pool):
+            m3real.run(rep, pool, pid, m3real.jobs_for(pid, tier, seed), 'real CBC on Evaluations/ and generator instances')
+    return lpcheck.run_lp_check(pid, tier, seed, runs_for(pid, tier, seed), rule=RULES[pid], nontrivial=NONTRIVIAL.get(pid), post=post)
